@@ -70,3 +70,5 @@ static int spec_find(uint32_t key)
 }
 int G_MUX_I, G_MUX0_I;
 uint32_t G_DVB_KEY; _Bool G_DVB_OK; uint8_t G_DVB_VAL; uint32_t G_DVB_WR_N; uint32_t G_HISTADD_N; uint8_t G_HISTADD_ERR; CO_EMCY_USR *G_HISTADD_USR;
+uint32_t G_ORD, G_ORD_LSSLOAD, G_ORD_LSSINIT, G_ORD_TMRCLEAR, G_ORD_NMTINIT, G_ORD_SDOINIT, G_ORD_CANRESET, G_ORD_EMCYRESET, G_ORD_SYNCINIT, G_ORD_BOOTUP, G_ORD_PARA_NODE, G_ORD_PARA_COM;
+uint32_t G_PARARESET_NODE_N, G_PARARESET_COM_N; _Bool G_TMR_WATCH_IS_PDO;
